@@ -34,12 +34,24 @@ def run(chk):
             chk.cov["combiner_coincidences_tolerated"] = chk.cov.get("combiner_coincidences_tolerated", 0) + len(rej)
         else:
             vlib.report_rejects(chk, rej, "combiner-attack")
+    # closures that create no gate: the honest second-phase commitments are the identity, which the relations accept ((a) names the mandatory
+    # points only) - a batched linear-equality check with a challenge-dependent constraint, an empty closure, two such closures, no gate at all
+    lin = [{"op": "chal", "label": "c"}, {"op": "con", "lc": [["V", 0, {"k0": 1, "ch": 0, "k1": 1}], ["V", 1, {"k0": 0, "ch": 0, "k1": 2}]], "fix": 1}]
+    mulv = {"op": "mul", "l": [["V", 0, 1]], "r": [["V", 1, 1]]}
+    shapes = [("lin", [mulv], [lin]), ("empty", [mulv], [[]]), ("two", [mulv, {"op": "allocmul", "l": 2, "r": 3}], [lin, []]), ("nogate", [], [lin])]
+    nog = []
+    for name, first, cbs in shapes:
+        for k in range(4 if q else 40):
+            ops = [{"op": "commit", "v": 3 + k, "vb": 5}, {"op": "commit", "v": 4, "vb": 2 + k}] + first + [{"op": "defer", "cb": j} for j in range(len(cbs))]
+            nog.append({"id": "nogate-%s-%d" % (name, k), "p": {"label": "verif", "pre": [], "ops": ops, "cbs": cbs, "cap": 2}, "seed": chk.seed * 131 + k})
+    for curve in ("toy79", "toy31723"):
+        vlib.toy_traces(chk, curve, "nogate", 0, vlib.flags(V=1), "verdict-nogate-closure", progs=[dict(p) for p in nog], name="nogate" + curve)
     gad = [dict(p) for p, holds in gadgets.workload(chk.seed, q)]
     for curve in ("toy79", "toy31723"):
         vlib.toy_traces(chk, curve, "gadgets", 0, vlib.flags(V=1), "verdict-gadget", progs=[dict(p) for p in gad], name="gad" + curve)
     chk.cov["verdicts_observed"] = {"%s:%s" % k: v for k, v in sorted(outcomes.items())}
     chk.finish(
-        rule="seeded random programs (honest, one violated constraint/gate, one tampered proof field, free constraints) run through the real "
+        rule="seeded random programs (honest, one violated constraint/gate, one tampered proof field, free constraints) and circuits whose randomized closures create no gate (identity second-phase commitments) run through the real "
              "prover and verifier on toy7/toy79/toy31723; for every verify call TLC recomputes, from the recorded statement, proof and challenges, "
              "(a) the identity validations in order, the shape guards, (b) Tres, (c) Ires with generators folded round by round, and the combined "
              "residual, and demands: code verdict = specification verdict, mega = Ires + r*Tres, and verdict = (Ires = 0 and Tres = 0) unless "
